@@ -299,12 +299,20 @@ def check_property(prop, tier="quick", seed=0, only_unit=None, jobs=None, verbos
     # contract <-> code consistency
     fn_hashes = {}
     for u in sel:
+        found = 0
         for t in u.targets + u.stubs + u.inlined:
             try:
                 fn_hashes[t] = units.source_hash(t)
+                found += 1
             except Exception as e:
-                print(f"CONTRACT-MISMATCH unit={u.name}: target {t} not found in /repo ({e})")
-                return 3
+                # a function named in the contract is gone (renamed, inlined or removed by a refactoring): the unit
+                # still runs the code through its entry points and its obligations decide; said in the output and
+                # in the evidence.  (If the unit's own harness needs the function it crashes below -> exit 3.)
+                fn_hashes[t] = "not in the code any more"
+                print(f"NOTE unit={u.name}: function {t} named in the contract is not in /repo any more ({e}); the unit runs through its remaining entry points")
+        if not found and (u.targets + u.stubs + u.inlined):
+            print(f"CONTRACT-MISMATCH unit={u.name}: none of the functions under contract exists in /repo")
+            return 3
     joblist = []
     for u in sel:
         sks = list(u.skeletons(tier))
@@ -384,6 +392,10 @@ def check_property(prop, tier="quick", seed=0, only_unit=None, jobs=None, verbos
             ok = any(o["status"] == "refuted" and (o.get("replay") or {}).get("how") in ("solver-model", "directed-search") for o in res["obligations"])
             if ok:
                 vacuity["mustfail_refuted_and_replayed"] += 1
+            elif res["unsupported"]:
+                # the guard could not be executed on this code (an operation outside the value model): nothing is known
+                # about vacuity either way -> undecided, not a checker error
+                undecided.append((res["unit"], res["skeleton"], "must-fail guard could not run: unsupported: " + "; ".join(sorted(set(res["unsupported"]))[:3]), None))
             else:
                 crashes.append((res["unit"], res["skeleton"], "must-fail obligation was not refuted+replayed: engine or contract is vacuous"))
             continue
@@ -416,6 +428,11 @@ def check_property(prop, tier="quick", seed=0, only_unit=None, jobs=None, verbos
                     known_hits.append((f, res["unit"], o["name"], res["skeleton"]))
                 elif not is_clause(prop, u, o["name"], o["kind"]):
                     context_fail.append((res["unit"], o["name"]))
+                elif o.get("model_exc") and (o.get("replay") or {}).get("how") not in ("solver-model", "directed-search"):
+                    # the failure follows an exception that the *value model* raised (not a raise statement of the code)
+                    # and neither the solver's input nor the directed search makes the real code fail: the model's
+                    # emulation, not the code, is what stopped -- undecided, not a violation
+                    undecided.append((res["unit"], res["skeleton"], f"obligation {o['name']}: the value model raised {o['model_exc']} on this path; the real code does not fail on the solver's input or on {SEARCH_SEEDS} directed runs", None))
                 else:
                     violations.append((res, o))
             else:
@@ -506,6 +523,7 @@ def check_property(prop, tier="quick", seed=0, only_unit=None, jobs=None, verbos
                 "obligation": obname,
                 "path": o["path"],
                 "solver_model": o.get("model"),
+                "verifier_output": f"{o.get('backend', 'z3')}: sat (the negated obligation is satisfiable under the path condition) -- {o.get('detail') or ''}",
                 "replay": rp,
                 "failing_input_found": rp.get("how") in ("solver-model", "directed-search"),
                 "also_fails_in_skeletons": [r["skeleton"] for r, _ in lst[1:60]],
